@@ -4,8 +4,8 @@ From SW Require Import model.Listing proof.ListingBase.
 Import ListNotations.
 Local Open Scope string_scope.
 
-(* a string without '*' and '?' *)
-Definition literal (s : string) : Prop := find_char star s = None /\ find_char qmark s = None.
+(* a string without any character that is special to filepath.Match *)
+Definition literal (s : string) : Prop := find_meta s = None.
 
 Lemma stake_sdrop : forall i s, stake i s ++ sdrop i s = s.
 Proof.
@@ -13,28 +13,21 @@ Proof.
   destruct s as [|c s]; simpl; auto. rewrite IH. auto.
 Qed.
 
-Lemma find_char_stake : forall c s i, find_char c s = Some i -> find_char c (stake i s) = None.
+Lemma find_meta_stake : forall s i, find_meta s = Some i -> find_meta (stake i s) = None.
 Proof.
-  intros c s. induction s as [|d s IH]; intros i H; simpl in H; [discriminate|].
-  destruct (Ascii.eqb d c) eqn:E.
+  induction s as [|d s IH]; intros i H; simpl in H; [discriminate|].
+  destruct (is_meta d) eqn:E.
   - inversion H; subst. reflexivity.
-  - destruct (find_char c s) as [j|] eqn:Ej; simpl in H; [|discriminate].
+  - destruct (find_meta s) as [j|] eqn:Ej; simpl in H; [|discriminate].
     inversion H; subst. simpl. rewrite E. rewrite (IH j); auto.
 Qed.
 
-Lemma find_char_stake_none : forall c s i, find_char c s = None -> find_char c (stake i s) = None.
+Lemma sdrop_head : forall s i, find_meta s = Some i -> exists c t, sdrop i s = String c t.
 Proof.
-  intros c s. induction s as [|d s IH]; intros i H; destruct i; simpl in *; auto.
-  destruct (Ascii.eqb d c); [discriminate|].
-  destruct (find_char c s) eqn:E; simpl in H; [discriminate|]. rewrite IH; auto.
-Qed.
-
-Lemma sdrop_head : forall c s i, find_char c s = Some i -> exists t, sdrop i s = String c t.
-Proof.
-  intros c s. induction s as [|d s IH]; intros i H; simpl in H; [discriminate|].
-  destruct (Ascii.eqb_spec d c) as [E|E].
+  induction s as [|d s IH]; intros i H; simpl in H; [discriminate|].
+  destruct (is_meta d) eqn:E.
   - inversion H; subst. simpl. eauto.
-  - destruct (find_char c s) as [j|] eqn:Ej; simpl in H; [|discriminate].
+  - destruct (find_meta s) as [j|] eqn:Ej; simpl in H; [|discriminate].
     inversion H; subst. simpl. apply IH. auto.
 Qed.
 
@@ -43,13 +36,12 @@ Qed.
 Lemma glob_literal : forall pp rest n, literal pp ->
   glob (pp ++ rest) n = String.prefix pp n && glob rest (sdrop (String.length pp) n).
 Proof.
-  induction pp as [|c pp IH]; intros rest n [H1 H2].
+  unfold literal. induction pp as [|c pp IH]; intros rest n H.
   - simpl. destruct n; reflexivity.
-  - simpl in H1, H2.
-    destruct (Ascii.eqb c star) eqn:Es; [discriminate|].
-    destruct (Ascii.eqb c qmark) eqn:Eq; [discriminate|].
-    assert (Hl : literal pp).
-    { split; [destruct (find_char star pp); [discriminate|auto]|destruct (find_char qmark pp); [discriminate|auto]]. }
+  - simpl in H. destruct (is_meta c) eqn:Em; [discriminate|].
+    assert (Hl : find_meta pp = None) by (destruct (find_meta pp); [discriminate|auto]).
+    unfold is_meta in Em. apply orb_false_iff in Em. destruct Em as [Em _].
+    apply orb_false_iff in Em. destruct Em as [Em _]. apply orb_false_iff in Em. destruct Em as [Es Eq].
     change ((String c pp ++ rest)%string) with (String c (pp ++ rest)).
     cbn [glob]. rewrite Es. destruct n as [|d n]; [reflexivity|].
     rewrite Eq. cbn [orb String.prefix String.length sdrop].
@@ -58,49 +50,38 @@ Proof.
     + rewrite (proj2 (Ascii.eqb_neq c d) E). reflexivity.
 Qed.
 
-(* outside the static triggers, splitPattern splits the pattern at its first wildcard
-   and the part before it is literal *)
-Lemma split_pattern_ok : forall pat,
-  String.eqb pat "" = false -> trig_nowild pat = false -> trig_qprefix pat = false ->
+(* splitPattern splits a non-empty pattern into a literal part and a non-empty rest *)
+Lemma split_pattern_ok : forall pat, pat <> "" ->
   let pp := fst (split_pattern pat) in let rest := snd (split_pattern pat) in
   pat = pp ++ rest /\ literal pp /\ rest <> "".
 Proof.
-  intros pat Hne Hnw Hq. unfold split_pattern, trig_nowild, trig_qprefix, has_char in *.
-  rewrite Hne in Hnw. cbn [negb andb] in Hnw.
-  destruct (find_char star pat) as [i|] eqn:Es.
-  - cbn [fst snd]. split; [symmetry; apply stake_sdrop|]. split.
-    + split; [apply find_char_stake; auto|].
-      destruct (find_char qmark (stake i pat)); [discriminate|reflexivity].
-    + destruct (sdrop_head _ _ _ Es) as [t Ht]. rewrite Ht. discriminate.
-  - cbn [negb andb] in Hnw.
-    destruct (find_char qmark pat) as [i|] eqn:Eq; [|discriminate].
-    cbn [fst snd]. split; [symmetry; apply stake_sdrop|]. split.
-    + split; [apply find_char_stake_none; auto|apply find_char_stake; auto].
-    + destruct (sdrop_head _ _ _ Eq) as [t Ht]. rewrite Ht. discriminate.
+  intros pat Hne. unfold split_pattern.
+  destruct (find_meta pat) as [i|] eqn:Es; cbn [fst snd].
+  - split; [symmetry; apply stake_sdrop|]. split; [apply find_meta_stake; auto|].
+    destruct (sdrop_head _ _ Es) as [c [t Ht]]. rewrite Ht. discriminate.
+  - split; [reflexivity|]. split; [reflexivity|exact Hne].
 Qed.
-
-Lemma split_pattern_empty : split_pattern "" = ("", "").
-Proof. reflexivity. Qed.
 
 Lemma prefix_empty : forall n, String.prefix "" n = true.
 Proof. destruct n; reflexivity. Qed.
 
-(* what the implementation tests per name = what the request asks for *)
+(* what the implementation tests per name = what the request asks for, unless a prefix
+   and a pattern are given together *)
 Lemma match_agrees : forall prefix pat excl n,
-  pat_trigger prefix pat = false ->
+  trig_both prefix pat = false ->
   String.prefix (eff_prefix prefix pat) n &&
   negb (missed (eff_prefix prefix pat) (snd (split_pattern pat)) excl n) =
   spec_match prefix pat excl n.
 Proof.
-  intros prefix pat excl n Ht. unfold pat_trigger in Ht.
-  apply orb_false_iff in Ht. destruct Ht as [Ht Hb]. apply orb_false_iff in Ht. destruct Ht as [Hnw Hq].
+  intros prefix pat excl n Hb.
   unfold spec_match, missed, eff_prefix.
   destruct (String.eqb pat "") eqn:Ep.
-  - apply String.eqb_eq in Ep. subst pat. cbn [split_pattern find_char fst snd].
+  - apply String.eqb_eq in Ep. subst pat. cbn [split_pattern find_meta fst snd].
     rewrite String.eqb_refl. cbn [negb andb orb]. rewrite orb_false_r. rewrite andb_true_r. reflexivity.
   - unfold trig_both in Hb. rewrite Ep in Hb. cbn [negb] in Hb. rewrite andb_true_r in Hb.
     apply negb_false_iff in Hb. apply String.eqb_eq in Hb. subst prefix.
-    destruct (split_pattern_ok pat Ep Hnw Hq) as [Hpat [Hlit Hrest]].
+    apply String.eqb_neq in Ep.
+    destruct (split_pattern_ok pat Ep) as [Hpat [Hlit Hrest]].
     set (pp := fst (split_pattern pat)) in *. set (rest := snd (split_pattern pat)) in *.
     assert (Epp : (if String.eqb pp "" then "" else pp) = pp).
     { destruct (String.eqb_spec pp ""); congruence. }
